@@ -266,7 +266,8 @@ pub fn run() {{
             meta[key2] = ({"vs": [{"disc": {"op": "lit"}}], "discs": [], "extremes": t, "_module": mod2}, "")
     # LONG runs of implicit discriminants after an explicit one: the offset added to the last explicit value outgrows what a
     # literal of the repr type can say long before the discriminants themselves do (`V0 = -128` + 139 more variants in i8)
-    for t, first, count in (("i8", "-128", 140), ("i8", "-1", 100), ("u8", "0", 256), ("i8", "-128", 256), ("u8", "200", 56)):
+    for t, first, count in (("i8", "-128", 140), ("i8", "-1", 100), ("u8", "0", 256), ("i8", "-128", 256), ("u8", "200", 56),
+                            ("u16", "0", 300), ("i16", "-10", 301), ("i16", "-32768", 600)):
         key = f"long:{t}:{first}:{count}"
         if replay and json.load(open(replay))["key"] != key:
             continue
